@@ -83,6 +83,7 @@ def run_case(case):
     init = gen_initial_states(r, mj, n, meta=meta)
     seed = r.randint(0, 10_000)
     vs = []
+    cb = []
     evals = 0
     try:
         fns = ImplFns(mj, jit=True)
@@ -123,21 +124,24 @@ def run_case(case):
                         base = jax.random.split(base, nv + 1)[k]
                     akeys = jax.random.split(base, n)
                     for i in check_agents:
-                        if paths is not None and paths[t][j][i] != vpath + [i]:
-                            vs.append({"clause": "key schedule", "detail": f"model key path {paths[t][j][i]} vs harness path {vpath + [i]}"})
+                        if paths is not None and paths[t][j][i] != vpath + [i] and not cb:
+                            cb.append({"clause": "key schedule of the Lean model equals the one the harness resolves", "detail": f"model key path {paths[t][j][i]} vs harness path {vpath + [i]}", "key": "C04:key-schedule", "nofail": True})
                         deps = tuple(t if a == "_period" else int(cols[a][t * n + i]) for a in fargs[nm])
                         row = shocks[x][deps]
                         lab = int(jax.random.choice(akeys[i], a=jnp.arange(nlab[nm]), p=jnp.asarray(row)))
                         got = float(cols[x][(t + 1) * n + i])
                         evals += 1
-                        if got != lab:
-                            vs.append({"clause": "draw equals jax.random.choice at the model's key path with the row selected by the agent's period-t variables",
-                                       "detail": f"period {t} variable {x} agent {i}: frame {got}, schedule gives {lab} (row {row.tolist()}, deps {fargs[nm]}={deps})"})
+                        if got != lab and not cb:
+                            # the implementation does not follow the modelled key schedule / sampler: a correspondence break, not
+                            # by itself a violation (another valid schedule would also differ) - the clauses below decide
+                            cb.append({"clause": "draw equals jax.random.choice at the model's key path with the row selected by the agent's period-t variables",
+                                       "detail": f"period {t} variable {x} agent {i}: frame {got}, schedule gives {lab} (row {row.tolist()}, deps {fargs[nm]}={deps})",
+                                       "key": "C04:key-schedule", "nofail": True})
+                        if 0 <= int(got) < len(row) and row[int(got)] == 0:
+                            vs.append({"clause": "a label with probability zero is never drawn", "detail": f"period {t} variable {x} agent {i} label {int(got)} row {row.tolist()} (deps {fargs[nm]}={deps})"})
                             break
-                        if row[lab] == 0:
-                            vs.append({"clause": "a label with probability zero is never drawn", "detail": f"period {t} variable {x} agent {i} label {lab} row {row.tolist()}"})
         # ---- frequencies (supporting evidence), only with many agents
-        if case.get("big") and T > 1 and not vs:
+        if case.get("big") and T > 1 and not vs:  # (also when the key schedule differs from the modelled one: `cb`)
             for t in range(T - 1):
                 per_var = {}
                 for nm in names:
@@ -204,5 +208,6 @@ def run_case(case):
     for v in vs[:3]:
         v["key"] = "C04:" + v["clause"]
         out["violations"].append(v)
+    out.setdefault("corr_breaks", []).extend(cb)
     out["sample"] = {"stochastic": {nm: fargs[nm] for nm in names}, "n_agents": n, "seed": seed, "T": T}
     return out
